@@ -145,6 +145,7 @@ type op struct {
 	Owner  string            `json:"owner"`
 	Ver    uint64            `json:"ver"` // version carried by the object (update)
 	Stale  bool              `json:"stale,omitempty"`
+	Resubmit bool            `json:"resubmit,omitempty"`
 	Token  string            `json:"token"`
 	Big    int               `json:"big,omitempty"` // payload size (both sides of the compression threshold)
 	Phase  string            `json:"phase"`
@@ -219,14 +220,21 @@ func nextOp(rng *rand.Rand, k, g int, get func(id string) (resource.Resource, bo
 			o.Stale = true
 		}
 
-		switch rng.IntN(6) {
-		case 0:
+		if rng.IntN(5) == 0 {
+			// re-submit the current contents unchanged: still an acknowledged write (version + update time move on)
+			o.Resubmit = true
+			o.Token = res.Token(cur)
+		}
+
+		switch pick := rng.IntN(6); {
+		case o.Resubmit:
+		case pick == 0:
 			r.Metadata().SetPhase(resource.PhaseTearingDown)
-		case 1:
+		case pick == 1:
 			r.Metadata().Finalizers().Add(fmt.Sprintf("f%d", rng.IntN(3)))
-		case 2:
+		case pick == 2:
 			r.Metadata().Finalizers().Remove(fmt.Sprintf("f%d", rng.IntN(3)))
-		case 3:
+		case pick == 3:
 			r.Metadata().Finalizers().Set(nil)
 		}
 	case "destroy":
@@ -239,12 +247,14 @@ func nextOp(rng *rand.Rand, k, g int, get func(id string) (resource.Resource, bo
 		return o, nil
 	}
 
-	sp := res.SpecOf(r)
-	sp.Token, sp.Val = o.Token, int64(k)
-	sp.S = []string{o.Token, strings.Repeat("x", o.Big)}
-	sp.M = map[string]string{"k": o.Token}
-	r.Metadata().Labels().Set("l", o.Token)
-	r.Metadata().Annotations().Set("a", strings.Repeat("y", o.Big/3))
+	if !o.Resubmit {
+		sp := res.SpecOf(r)
+		sp.Token, sp.Val = o.Token, int64(k)
+		sp.S = []string{o.Token, strings.Repeat("x", o.Big)}
+		sp.M = map[string]string{"k": o.Token}
+		r.Metadata().Labels().Set("l", o.Token)
+		r.Metadata().Annotations().Set("a", strings.Repeat("y", o.Big/3))
+	}
 
 	o.Ver = r.Metadata().Version().Value()
 	o.Phase = r.Metadata().Phase().String()
